@@ -26,7 +26,8 @@ RULE = ("rule documents with all metadata fields (dates in both accepted spellin
         "correlation rules of all types with aliases, group-by, timespans, extended conditions; filters; and rule objects "
         "after any single transformation of the C12 list, after many-to-one field mappings over items with equal or different modifier "
         "chains (key collisions in to_plain's merging loop); distinct = distinct document; non-trivial = >= 2 detection items or a "
-        "modifier chain or a correlation/filter document")
+        "modifier chain or a correlation/filter document"
+        "; transformed rules incl. many-to-one field mappings over all modifier sets, extract_fields / hashes_fields; correlation rules converted with their referenced rules")
 ASSUMPTIONS = [
     "queries are compared as text produced by the test backend (same backend, same configuration on both sides)",
     "PyYAML is used for the YAML leg (safe_dump / safe_load)",
